@@ -11,6 +11,7 @@
    wrapper and adding the taken nodes are changes at the top level (`ValR_top`). -/
 import Proofs.FitValid
 import PM.FitGuards
+set_option linter.unusedVariables false
 namespace PM
 
 /-! ### the schema hypothesis `closableB` as a proposition -/
@@ -359,5 +360,170 @@ theorem ValR_openValid (S : Schema) (L : Bool → FItem → List Node → Prop) 
             simp only [openValid, hl.1.1, hl.1.2, hr, Bool.and_self]
         | text s m0 => simp [leftOpenValid] at hl
         | leaf t0 a0 m0 => simp [leftOpenValid] at hl
+
+/-! ### the invariant on the whole state -/
+
+/-- `g` = the ghost level: `placed` is a chain of `g` of the document's nodes down to the fragment `G` of level
+    `g`, whose first child is still open `D - g` levels (the document's start spine) -/
+def VInv (S : Schema) (D g : Nat) (fr : List FItem) (placed : List Node) : Prop :=
+  g ≤ D ∧ g < fr.length ∧ ∃ G, PureV S g placed G ∧ ValR S (LevelR S) false (D - g) (fr.drop g) G
+
+theorem VInv_top (S : Schema) (D g : Nat) (X : List Node) (top : FItem) (newTail : List FItem)
+    (hty : ∀ x, newTail.head? = some x → x.ty = top.ty) (hne : newTail ≠ [])
+    (pre : List FItem) (placed p : List Node) (hg : g ≤ pre.length)
+    (h : addToFragment placed pre.length X = .ok p) (hv : VInv S D g (pre ++ [top]) placed)
+    (hnew : ∀ mk' x' F0, ValR S (LevelR S) mk' x' [top] F0 → ValR S (LevelR S) mk' x' newTail (fappend F0 X)) :
+    VInv S D g (pre ++ newTail) p := by
+  obtain ⟨h1, _, G, hp, hr⟩ := hv
+  rw [List.drop_append_of_le_length hg] at hr
+  obtain ⟨G', hG', hp'⟩ := addToFragment_pure S g (pre.length - g) placed G X p hp
+    (by rw [show g + (pre.length - g) = pre.length by omega]; exact h)
+  have hr' := ValR_top S (LevelR S) (LevelR_lastStable S) X top newTail hty hne (pre.drop g) false (D - g) G G'
+    (by rw [List.length_drop]; exact hG') hr hnew
+  refine ⟨h1, ?_, G', hp', ?_⟩
+  · have : 1 ≤ newTail.length := by
+      cases newTail with
+      | nil => exact absurd rfl hne
+      | cons _ _ => simp
+    rw [List.length_append]; omega
+  · rw [List.drop_append_of_le_length hg]; exact hr'
+
+/-- the node `close_frontier_node` closes at a level the Fitter opened is valid -/
+theorem close_top_valid (S : Schema) (hdet : DetS S) (hleaf : PM.FromDom.LeafOk S) (hts : TextStableP S)
+    (hcl : Closable S) (top : FItem) (q : Nat) (hq : top.st = some q) (add : Option (List Node))
+    (hadd : fillOpt S (S.dfa top.ty) q [] true = .ok add) (k : List Node) (hl : LevelR S true top k)
+    (hk : S.checkKids k = true) :
+    S.validContent top.ty (fappend k (add.getD [])) = true ∧ S.checkKids (fappend k (add.getD [])) = true := by
+  obtain ⟨hty, hm, q0, hq0, hrun⟩ := hl rfl
+  rw [hq] at hq0
+  simp only [Option.some.injEq] at hq0
+  subst hq0
+  have hsome : (fillBeforeTypes S (S.dfa top.ty) q [] true).isSome = true := by
+    rcases run_target _ _ _ _ hrun with h0 | ⟨q1, e, he, he2⟩
+    · rw [h0]; exact (hcl top.ty hty).1
+    · rw [← he2]; exact (hcl top.ty hty).2 q1 e he
+  obtain ⟨a, rfl⟩ := fillOpt_some S _ q hsome add hadd
+  simp only [Option.getD_some]
+  have hn := fillOpt_nodes S hdet hleaf _ _ _ _ a hadd
+  have hav : S.checkKids a = true := (checkKids_iff S a).2 (fun n hn' => (hn n hn').1)
+  have htys := fillBeforeNodes_types S _ _ _ _ a (liftRaise_ok hadd)
+  obtain ⟨_, q1, hrun1, hfin⟩ := fillBeforeTypes_sound S (S.dfa top.ty) (hdet top.ty) q [] true _ htys
+  have hend : (S.dfa top.ty).validEnd q1 = true := by simpa [fillFinished, Dfa.run] using hfin
+  have hr : (S.dfa top.ty).run 0 (S.types (fappend k a)) = some q1 := by
+    apply run_fappend_some hts
+    rw [Dfa.run_append, hrun]
+    exact hrun1
+  refine ⟨?_, fappend_checkKids S k a hk hav⟩
+  simp only [Schema.validContent, Bool.and_eq_true, List.all_eq_true]
+  refine ⟨?_, MarksOK_fappend S top.ty k a hm (MarksOK_of_nil S _ a (fun n hn' => (hn n hn').2))⟩
+  unfold Dfa.accepts
+  rw [hr]; exact hend
+
+theorem list_two_last {α : Type} (l : List α) (h : 2 ≤ l.length) : ∃ A x y, l = (A ++ [x]) ++ [y] := by
+  match hr : l.reverse with
+  | [] => simp at hr; subst hr; simp at h
+  | [y] =>
+    have := congrArg List.length hr
+    simp at this; omega
+  | y :: x :: B =>
+    refine ⟨B.reverse, x, y, ?_⟩
+    have := congrArg List.reverse hr
+    simpa using this
+
+theorem list_one {α : Type} (l : List α) (h : l.length = 1) : ∃ x, l = [x] := by
+  match l, h with
+  | [x], _ => exact ⟨x, rfl⟩
+
+/-- **`close_frontier_node` keeps the invariant** (the ghost level drops when a document level is closed) -/
+theorem closeFrontierNode_vinv (S : Schema) (hdet : DetS S) (hleaf : PM.FromDom.LeafOk S) (hts : TextStableP S)
+    (hcl : Closable S) (D g : Nat) (fr : List FItem) (placed : List Node) (hlen : 2 ≤ fr.length)
+    (hsp : rspineOK (fr.length - 1) placed) (hv : VInv S D g fr placed) (r : List FItem × List Node)
+    (h : closeFrontierNode S fr placed = .ok r) : VInv S D (min g (fr.length - 2)) r.1 r.2 := by
+  obtain ⟨hgD, hgl, G, hp, hr⟩ := hv
+  by_cases hgt : g = fr.length - 1
+  · obtain ⟨it, hit⟩ := list_one (fr.drop g) (by rw [List.length_drop]; omega)
+    rw [hit] at hr
+    obtain ⟨b, hb⟩ : ∃ b, g = b + 1 := ⟨g - 1, by omega⟩
+    subst hb
+    obtain ⟨hl1, G', hp', hG'⟩ := closeFrontierNode_pureV S hdet hleaf fr placed b (D - (b + 1)) G (by omega) hp
+      hr.1 r h
+    have hmin : min (b + 1) (fr.length - 2) = b := by omega
+    rw [hmin]
+    refine ⟨by omega, by omega, G', hp', ?_⟩
+    obtain ⟨it', hit'⟩ := list_one (r.1.drop b) (by rw [List.length_drop]; omega)
+    rw [hit', show D - b = D - (b + 1) + 1 by omega]
+    exact ⟨hG', fun hh => by cases hh⟩
+  · have hmin : min g (fr.length - 2) = g := by omega
+    rw [hmin]
+    obtain ⟨A, par, top, hfr⟩ := list_two_last fr hlen
+    subst hfr
+    have hAl : ((A ++ [par]) ++ [top]).length = A.length + 2 := by simp
+    rw [hAl] at hgl hgt hsp
+    have hgA : g ≤ A.length := by omega
+    have hdrop : ((A ++ [par]) ++ [top]).drop g = A.drop g ++ [par, top] := by
+      rw [List.append_assoc, List.drop_append_of_le_length hgA]; rfl
+    rw [hdrop] at hr
+    have hsp' : rspineOK (A.length + 1) placed := hsp
+    unfold closeFrontierNode at h
+    simp only [List.getLast?_concat, List.dropLast_concat] at h
+    obtain ⟨q, hq, h⟩ := FM.bind_ok h
+    obtain ⟨add, hadd, h⟩ := FM.bind_ok h
+    have hres : r.1 = A ++ [par] ∧ addToFragment placed (A.length + 1) (add.getD []) = .ok r.2 := by
+      cases add with
+      | none =>
+        have := pure_ok h
+        subst this
+        exact ⟨rfl, addToFragment_nil _ _ hsp'⟩
+      | some a =>
+        simp only at h
+        split at h
+        · rename_i he
+          have := pure_ok h
+          subst this
+          have : a = [] := by simpa using he
+          subst this
+          exact ⟨rfl, addToFragment_nil _ _ hsp'⟩
+        · obtain ⟨p, hp2, h⟩ := FM.bind_ok h
+          have := pure_ok h
+          subst this
+          refine ⟨rfl, ?_⟩
+          simpa using hp2
+    obtain ⟨hr1, hr2⟩ := hres
+    obtain ⟨G', hG', hp'⟩ := addToFragment_pure S g (A.length + 1 - g) placed G _ r.2 hp
+      (by rw [show g + (A.length + 1 - g) = A.length + 1 by omega]; exact hr2)
+    have hclose := ValR_close S top (add.getD [])
+      (fun k hk1 hk2 => close_top_valid S hdet hleaf hts hcl top q (getSt_ok hq) add hadd k hk1 hk2)
+      (A.drop g) par false (D - g) G G'
+      (by rw [List.length_drop, show A.length - g + 1 = A.length + 1 - g by omega]; exact hG') hr
+    rw [hr1]
+    refine ⟨hgD, by simp; omega, G', hp', ?_⟩
+    rw [List.drop_append_of_le_length hgA]
+    exact hclose
+
+/-- `n` times `close_frontier_node` -/
+theorem closeMany_vinv (S : Schema) (hdet : DetS S) (hf : FillersOK S) (hleaf : PM.FromDom.LeafOk S)
+    (hts : TextStableP S) (hcl : Closable S) (D : Nat) : ∀ (n g : Nat) (fr : List FItem) (placed : List Node),
+    n + 1 ≤ fr.length → FrOK fr → rspineOK (fr.length - 1) placed → VInv S D g fr placed →
+    ∀ (r : List FItem × List Node), closeMany S n fr placed = .ok r →
+    VInv S D (min g (fr.length - 1 - n)) r.1 r.2
+  | 0, g, fr, placed, _, _, _, hv, r, h => by
+    have := pure_ok h
+    subst this
+    have : min g (fr.length - 1 - 0) = g := by have := hv.2.1; omega
+    rw [this]; exact hv
+  | n + 1, g, fr, placed, hn, hfr, hsp, hv, r, h => by
+    unfold closeMany at h
+    obtain ⟨x, hx, h⟩ := FM.bind_ok h
+    have hne : fr ≠ [] := by intro h0; subst h0; simp at hn
+    obtain ⟨x', hx', hx1, hx2⟩ := closeFrontierNode_ok S hdet hf fr placed hfr hne hsp
+    have hxx : x' = x := by rw [hx'] at hx; exact Except.ok.inj hx
+    subst hxx
+    have hv1 := closeFrontierNode_vinv S hdet hleaf hts hcl D g fr placed (by omega) hsp hv x' hx
+    have hxl : x'.1.length = fr.length - 1 := by rw [hx1, List.length_dropLast]
+    have := closeMany_vinv S hdet hf hleaf hts hcl D n _ x'.1 x'.2 (by omega) (by rw [hx1]; exact hfr.dropLast) hx2
+      hv1 r h
+    rw [hxl] at this
+    rw [show min g (fr.length - 1 - (n + 1)) = min (min g (fr.length - 2)) (fr.length - 1 - 1 - n) by omega]
+    exact this
 
 end PM
